@@ -45,7 +45,8 @@ def run_shard_subprocess(mod, shard, idx, tmpdir):
     out = os.path.join(tmpdir, f"shard{idx}.json")
     log = os.path.join(tmpdir, f"shard{idx}.log")
     timeout = shard.get("timeout") or getattr(mod, "SHARD_TIMEOUT", 900)
-    cmd = [overlay.PY, "-B", "-m", "vlib.worker", mod.__name__, json.dumps(shard), out]
+    # shard["pyflags"]: interpreter options the shard's worker runs under (e.g. ["-bb"]: str(bytes) is an error)
+    cmd = [overlay.PY, "-B"] + list(shard.get("pyflags") or os.environ.get("VERIF_PYFLAGS", "").split()) + ["-m", "vlib.worker", mod.__name__, json.dumps(shard), out]
     if hasattr(mod, "shard_cmd_prefix"):
         cmd = mod.shard_cmd_prefix(shard) + cmd
     t0 = time.time()
@@ -183,7 +184,7 @@ def main(argv=None):
         if case is not None:
             rshard = dict(kind="cases", cases=[case], flavour=(shard or {}).get("flavour"),
                           origin=(shard or {}).get("kind"))
-            for k in ("variant", "hashseed", "env"):
+            for k in ("variant", "hashseed", "env", "pyflags"):
                 if shard and k in shard:
                     rshard[k] = shard[k]
         with open(path, "w") as f:
